@@ -67,7 +67,10 @@ def mutate_valid(rng, text):
                 i = rng.choice(cand)
                 lines.insert(i, rng.choice(['; own-line comment', ';;; another one', '"  FIRST', '" ! verbatim ; $x', '   ; indented comment']))
         elif r < 0.4:
-            cand = [i for i, ln in enumerate(lines) if ln.strip() and not ln.startswith('$PROB') and '"' not in ln]
+            # ($ABBR REPLACE lines are left alone: the ANY terminal of the abbreviated grammar swallows a comment that is
+            # attached without a blank, 'ETA(1);c' becomes the replacement text — a reading defect outside this property)
+            cand = [i for i, ln in enumerate(lines) if ln.strip() and not ln.startswith('$PROB') and '"' not in ln
+                    and 'REPLACE' not in ln]
             if cand:
                 i = rng.choice(cand)
                 lines[i] += rng.choice(['  ; trailing comment', ';c', '\t; tab'])
@@ -398,6 +401,32 @@ def _sizes_in(m):
     return [len(thetas), len(odes) if cs else 0, bool(cs)]
 
 
+COMPONENTS = ['random_variables', 'parameters', 'statements', 'datainfo', 'execution_steps', 'description', 'name',
+              'initial_individual_estimates']
+
+
+def _changed_components(a, b):
+    """Which components of the model (the old_* snapshots update_source compares) differ between models a and b."""
+    out = []
+    for c in COMPONENTS:
+        try:
+            if c == 'initial_individual_estimates':
+                diff = getattr(a, c) is not getattr(b, c)
+            elif c == 'datainfo':
+                diff = (a.datainfo != b.datainfo) or (a.dataset is not b.dataset)
+            else:
+                diff = getattr(a, c) != getattr(b, c)
+        except Exception:
+            diff = True
+        if diff:
+            out.append(c)
+    return out
+
+
+def _ids(model):
+    return [_rid(r) for r in model.internals.control_stream.records]
+
+
 def _reread_ok(m):
     from pharmpy.modeling import read_model_from_string
     try:
@@ -465,26 +494,30 @@ def run_spec(args):
         out['code_eq'] = (m.code == spec['text'])
         out['before'] = before
         _CALLS, _UPDATES, _ABBR = [], [], []
+        ids0 = _ids(m)
         try:
             m_us = m.update_source()
             out['us'] = {'after': _records_of(m_us), 'calls': _CALLS, 'updates': _UPDATES, 'exc': None,
-                         'sizes_in': _sizes_in(m_us), 'reread': True, 'abbr': _ABBR}
+                         'sizes_in': _sizes_in(m_us), 'reread': True, 'abbr': _ABBR,
+                         'ids0': ids0, 'ids1': _ids(m_us), 'comps': _changed_components(m, m_us)}
         except Exception as e:
             out['us'] = {'after': None, 'calls': _CALLS, 'updates': _UPDATES, 'exc': f'{type(e).__name__}: {str(e)[:200]}',
-                         'sizes_in': None, 'reread': True, 'abbr': _ABBR}
+                         'sizes_in': None, 'reread': True, 'abbr': _ABBR, 'ids0': ids0, 'ids1': [], 'comps': []}
         out['edits'] = []
         for name, k in spec['edits']:
             _CALLS, _UPDATES, _ABBR = [], [], []
-            sizes_in = None
+            sizes_in, ids1, comps = None, [], []
             try:
                 m2 = _apply(m, name, k)
                 after = _records_of(m2)
                 sizes_in = _sizes_in(m2)
+                ids1, comps = _ids(m2), _changed_components(m, m2)
                 exc = None
             except Exception as e:
                 after, exc = None, f'{type(e).__name__}: {str(e)[:200]}'
             out['edits'].append({'name': name, 'allowed': EDITS[name], 'after': after, 'calls': _CALLS,
-                                 'updates': _UPDATES, 'exc': exc, 'sizes_in': sizes_in, 'reread': True, 'abbr': _ABBR})
+                                 'updates': _UPDATES, 'exc': exc, 'sizes_in': sizes_in, 'reread': True, 'abbr': _ABBR,
+                                 'ids0': ids0, 'ids1': ids1, 'comps': comps})
         # a history: every step edits the statements of the result of the previous step
         out['history'] = []
         cur = m
@@ -492,10 +525,12 @@ def run_spec(args):
             _CALLS, _UPDATES, _ABBR = [], [], []
             sizes_in, reread = None, True
             abbr = _ABBR
+            hids0, hids1, comps = _ids(cur), [], []
             try:
                 nxt = _history_step(cur, op, pos, k)
                 after = _records_of(nxt)
                 sizes_in = _sizes_in(nxt)
+                hids1, comps = _ids(nxt), _changed_components(cur, nxt)
                 calls, updates = _CALLS, _UPDATES
                 _CALLS, _UPDATES, _ABBR = None, None, None
                 reread = _reread_ok(nxt)
@@ -505,8 +540,11 @@ def run_spec(args):
                 calls, updates = (_CALLS or []), (_UPDATES or [])
                 after, exc = None, f'{type(e).__name__}: {str(e)[:200]}'
             out['history'].append({'name': f'history:{op}', 'allowed': CODE_KINDS, 'after': after, 'calls': calls,
-                                   'updates': updates, 'exc': exc, 'sizes_in': sizes_in, 'reread': reread, 'abbr': abbr})
+                                   'updates': updates, 'exc': exc, 'sizes_in': sizes_in, 'reread': reread, 'abbr': abbr,
+                                   'ids0': hids0, 'ids1': hids1, 'comps': comps})
         _CALLS, _UPDATES, _ABBR = None, None, None
+        # every record object seen: identity -> (name, text)
+        out['objs'] = [[_IDS[id(r)], r.name, str(r)] for r in _ALIVE]
     except Exception:
         out['harness_error'] = traceback.format_exc()[-800:]
     return out
